@@ -44,16 +44,19 @@ Fixpoint forallb3 (p : Z -> Q -> Q -> bool) (i : Z) (l1 l2 : list Q) : bool :=
   | _, _ => false
   end.
 
-(* Tolerance.  The model evaluates the erf arguments exactly; the code rounds the bin edges, the
-   centre and the product, i.e. perturbs (edge - centre) by a few ulp of the WAVELENGTH, which is
-   W / sigma ulps of the argument.  Hence per component an absolute allowance
-       |R| / delta * (2^-45 + 2^-49 * W / width)         (|erf'| <= 1.13, factor 1/2 in the formula)
-   and for the Stark part, whose bins the code integrates with a 1e-5 relative stopping rule,
-   additionally 2^-15 of the bin's own Stark contribution. *)
+(* Tolerance.  The model evaluates the erf arguments exactly; the code rounds the bin edge (1.5 ulp of the
+   wavelength scale W), the component centre (2-5 roundings) and the product with 1/(sqrt2 sigma) (3 roundings):
+   |du| <= ~5 * 2^-53 * W / (sqrt2 sigma), |erf'| <= 1.13, two erf values per bin and the factor R/(2 delta):
+   worst case |R| / delta * 2^-51 * W / sigma per component.  Allowed: twice that plus 2^-47 for the rounding of
+   erf itself and of the final arithmetic:
+       |R| / delta * (2^-47 + 2^-50 * W / width)
+   (measured over the quick tier: at most 6% of it is used).  For the Stark part, whose bins the code integrates
+   with a Gauss-Legendre rule stopped at 1e-5 relative change, additionally 2^-13 of the bin's own Stark
+   contribution (measured against the closed form: <= 3.8e-5 while a bin is <= 1 FWHM wide). *)
 Definition Qmax (a b : Q) : Q := if Qle_bool a b then b else a.
 Definition wscale (g : grid) : Q := Qmax (Qabs (gmin g)) (Qabs (gmax g)).
 Definition tol_uniform (g : grid) (R width : Q) : Q :=
-  Qabs R / gdelta g * (pow2 (-45) + pow2 (-49) * (wscale g / width)).
+  Qabs R / gdelta g * (pow2 (-47) + pow2 (-50) * (wscale g / width)).
 
 Section Cmp.
   Variable E : Q -> Q.
@@ -66,7 +69,7 @@ Section Cmp.
   Definition comp_tol (Rsup : Q) (g : grid) (c : comp) (i : Z) : Q :=
     match c with
     | GaussC R lam sig => if Qle_bool sig 0 then tol_uniform g Rsup (wscale g) else tol_uniform g Rsup sig
-    | LorC R lam w => if Qle_bool w 0 then 0 else tol_uniform g Rsup w + pow2 (-12) * Qabs (lbin I R lam w g i)
+    | LorC R lam w => if Qle_bool w 0 then 0 else tol_uniform g Rsup w + pow2 (-13) * Qabs (lbin I R lam w g i)
     end.
   Definition comps_tol (Rsup : Q) (g : grid) (cs : list comp) (i : Z) : Q := Qsum (map (fun c => comp_tol Rsup g c i) cs).
 
